@@ -318,13 +318,24 @@ def eval (c : Ctx V) (t : Int) : Expr V → Except Err (Value V)
           let v ← (← eval c t a).asVec
           dedupCheck c (v.map fun x => (x.1.dropName, div (ofInt t) (ofInt 1000)))
         else
-          -- the selector is re-evaluated at `t`; under `@` the offset is `t - @`
-          -- (Prometheus ignores the original offset here)
-          let ref := match s.atTs with
-            | some a => a
-            | none => t - s.origOffset
-          dedupCheck c ((selectT c s ref).map fun x =>
-            (x.1.dropName, div (ofInt x.2.1) (ofInt 1000)))
+          -- the selector is re-evaluated at `t` with the samples' own timestamps
+          match s.atTs with
+          | none =>
+            dedupCheck c ((selectT c s (s.refTime c.start t)).map fun x =>
+              (x.1.dropName, div (ofInt x.2.1) (ofInt 1000)))
+          | some a =>
+            -- Reference quirk: under `@` the offset is recomputed as `t - @`, forgetting the
+            -- original offset `o`, while the data was selected for `[@ - o - lookback, @ - o]`:
+            -- the latest sample at or before `min(@, @ - o)` is taken and its age is measured
+            -- from `@`.
+            let o := s.origOffset
+            let hi := if o ≥ 0 then a - o else a
+            let lo := if o ≥ 0 then a - c.lookback else a - c.lookback - o
+            dedupCheck c ((matchingSeries c s).filterMap fun sr =>
+              match latestAtOrBefore sr.samples hi with
+              | some ⟨ts, .num _⟩ =>
+                if ts < lo then none else some (sr.labels.dropName, div (ofInt ts) (ofInt 1000))
+              | _ => none)
       | _ => do
         let v ← (← eval c t a).asVec
         dedupCheck c (v.map fun x => (x.1.dropName, div (ofInt t) (ofInt 1000)))
